@@ -31,7 +31,7 @@ RULE = ("per transport (mrp, companion, http, rtsp): every interleaving of 2 req
         "of the 2-request scripts without device-originated message, randomly elsewhere; "
         "scripted listeners raise on their k-th call or always (plain, coroutine, bound method; the witness too); "
         "a fifth transport `tunnel` = MRP over the AirPlay data stream (real DataStreamChannel.handle_received, "
-        "decode_protobufs, AirPlayMrpConnection) with 1..3 messages per data-stream frame; per transport 150 (thorough: "
+        "decode_protobufs, AirPlayMrpConnection) with 1..3 messages per data-stream frame; per transport 120 (thorough: "
         "1500) PAIRS of protocol objects alive at once with the same identifiers in flight, their random scripts "
         "interleaved at random, each judged on its own; "
         "the segmentation of the device's message stream varies per script on every transport: one message per "
@@ -1414,14 +1414,14 @@ def gen_cases(ctx):
             for evs in structured(transport, base, n, rng.fork("stagger", transport, n)):
                 cases.append((transport, base, evs, subs(evs)))
         r2 = rng.fork("random", transport)
-        for _ in range(ctx.scale(700, 8000)):
+        for _ in range(ctx.scale(600, 8000)):
             b = 0 if transport != "companion" else r2.randint(0, 65536)
             evs = random_script(transport, b, r2)
             cases.append((transport, b, evs, subs(evs)))
     # two protocol objects of one transport alive at once, same identifiers in flight on both
     for transport in TRANSPORTS:
         rp = rng.fork("pair", transport)
-        for _ in range(ctx.scale(150, 1500)):
+        for _ in range(ctx.scale(120, 1500)):
             b = 0 if transport != "companion" else rp.randint(0, 65536)
             ea = random_script(transport, b, rp, nmax=3, maxlen=8)
             eb = list(ea) if rp.chance(0.3) else random_script(transport, b, rp, nmax=3, maxlen=8)
